@@ -83,6 +83,25 @@ func c13check(v *verifrt.T, get func(string) (Value, bool), remote *Volatile, l,
 	}
 }
 
+
+// c13stillMax: after the delta has been merged back (which trims it to nothing), the state is
+// still the point-wise maximum - the delta the broker hands on must not be the state's memory.
+func c13stillMax(v *verifrt.T, get func(string) (Value, bool), ls, rs []c13ent) {
+	for i := range ls {
+		la, ld, ra, rd := ls[i].add, ls[i].del, rs[i].add, rs[i].del
+		if !ls[i].present {
+			la, ld = 0, 0
+		}
+		if !rs[i].present {
+			ra, rd = 0, 0
+		}
+		x, ok := get(c13keys[i])
+		if ls[i].present || ra > 0 || rd > 0 {
+			v.Assert(ok && x.AddTime() == c13max(la, ra) && x.DelTime() == c13max(ld, rd), "C13.local.unchanged-by-what-happens-to-the-delta")
+		}
+	}
+}
+
 // VerifC13Volatile: every relative order of add/remove times per key (ties,
 // zeros, missing keys), nkeys keys per set.
 func VerifC13Volatile(v *verifrt.T) {
@@ -97,6 +116,7 @@ func VerifC13Volatile(v *verifrt.T) {
 	// re-merging the delta into the merged state changes nothing and leaves an empty delta
 	local.Merge(remote)
 	v.Assert(remote.Count() == 0, "C13.delta.idempotent-empty")
+	c13stillMax(v, func(k string) (Value, bool) { x, ok := local.data[k]; return x, ok }, ls, rs)
 	v.Observe("cnt", uint64(local.Count()))
 }
 
@@ -120,5 +140,7 @@ func VerifC13Durable(v *verifrt.T) {
 	}
 	local.Merge(remote)
 	v.Assert(remote.Count() == 0, "C13.delta.idempotent-empty")
+	state = local.toMap()
+	c13stillMax(v, func(k string) (Value, bool) { x, ok := state[k]; return x, ok }, ls, rs)
 	v.Observe("cnt", uint64(local.Count()))
 }
